@@ -176,6 +176,8 @@ def run(prog, tier, res):
     R6 = res.rule("C09.R6", "detector-crate functions reached from the event pipeline are inside C01's scope", 50)
     R7 = res.rule("C09.R7", "kernels: undischarged integer/index obligations per function do not exceed the committed census", 20)
     R8 = res.rule("C09.R8", "result discipline of try_from_banks: every Result is `?`-propagated, returned or matched", 10)
+    if tier == "thorough":
+        oblig.PATH_LIMIT[0] = 4096
     sa, det_a = physics_scope(prog, ASSEMBLY)
     rules = {"assert": R1, "call": R2, "panic": R3, "loop": R4, "callee": R5}
     opens, used = panicfree.run_scope(prog, res, sa, rules, ())
